@@ -307,20 +307,25 @@ class Runner:
             self.alloc_info = {"size": size, "accepted": len(writers), "before": before_alloc, "free": free,
                                "requested": len(shset)}
             return line, "a=%s|w=%s" % (show_list(str(x) for x in sorted(already)), show_list(ws))
-        if kind in ("W", "C", "X", "Y") and o[1] >= len(self.handles):
+        if kind in ("W", "H", "C", "X", "Y") and o[1] >= len(self.handles):
             # a fixed (corpus / replay) history names a handle this implementation never handed out
             self.ctx.count("op-on-missing-handle")
-            tok = {"W": "W:%d:%d:%s" % (o[1], o[2], o[3]) if kind == "W" else "", "C": "C:%d" % o[1]}.get(kind, "X:%d" % o[1])
+            tok = {"W": "W:%d:%d:%s" % (o[1], o[2], o[3]) if kind == "W" else "",
+                   "H": "H:%d:%d:%s" % (o[1], o[2], o[3]) if kind == "H" else "", "C": "C:%d" % o[1]}.get(kind, "X:%d" % o[1])
             return tok, "nohandle"
-        if kind == "W":
+        if kind in ("W", "H"):
+            # "H" = the HTTP storage server's PATCH handler (http_server.write_share_data): bucket.write(),
+            # and bucket.close() as soon as write() answers "finished" (201 CREATED instead of 200 OK)
             _, wid, off, dhex = o
             data = b"" if dhex == "-" else bytes.fromhex(dhex)
-            line = "W:%d:%d:%s" % (wid, off, dhex)
+            line = "%s:%d:%d:%s" % (kind, wid, off, dhex)
             bw = self.handles[wid]
             r = ref.inprog.get(wid)
             now = self.clock.seconds()
             try:
-                if self.fhandles[wid] is not None:
+                if kind == "H":
+                    fin = bw.write(off, data)
+                elif self.fhandles[wid] is not None:
                     self.fhandles[wid].remote_write(off, data)     # returns nothing over the wire
                     fin = bw._is_finished()
                 else:
@@ -348,12 +353,31 @@ class Runner:
                     for i in range(lo, hi):
                         r["data"][i] = data[i - off]
                         r["mask"][i] = 1
-                    if fin != all(r["mask"]):
-                        self.ctx.count("finished-flag-differs-from-coverage")
+                    if bool(fin) != all(r["mask"]):
+                        # write()'s answer is what the HTTP server closes the upload on
+                        missing = [i for i in range(n) if not r["mask"][i]]
+                        self.flag("write(%d, %d bytes) answered finished=%s but %d of %d bytes of the share %s written (first missing offset %s)" % (
+                            off, len(data), bool(fin), n - len(missing), n, "are" if n - len(missing) != 1 else "is",
+                            missing[0] if missing else None),
+                            "c22-write-reports-finished-early" if fin else "c22-write-reports-finished-late")
                 elif conflict:
                     self.ctx.count("write:conflict-detected")
             elif out.startswith("ok"):
                 self.flag("a write through a closed/aborted handle was accepted", "c22-write-after-close")
+            if kind == "H" and out.startswith("ok"):
+                if fin:
+                    bw.close()
+                    out = "created"
+                    if r is not None:
+                        if not all(r["mask"]):
+                            self.flag("HTTP PATCH closed the upload of share %s (201) with %d of %d bytes written: the share is "
+                                      "visible before its upload completed" % (r["key"], sum(r["mask"]), r["size"]),
+                                      "c22-visible-before-complete:http-finished-flag")
+                        ref.complete[r["key"]] = bytes(r["data"])
+                        self._ref_drop(wid)
+                    self.ctx.count("http:created")
+                else:
+                    out = "ok"
             rs = "x" if bw.closed else show_list("%d-%d" % (m.start, m.stop) for m in bw._already_written.ranges())
             return line, out + "/" + rs
         if kind == "C":
@@ -480,7 +504,7 @@ class Runner:
 
 
 def gen_history(rng, n_ops, free_fn=None, sizes=(0, 1, 3, 5, 8, 10, 16, 24, 40), n_si=3, shnums=(0, 1, 2, 3, 8, 9, 17),
-                foolscap=0.0):
+                foolscap=0.0, http_frac=0.0):
     """Structured history: allocate/write (overlapping, out-of-order, conflicting)/close/abort/
     disconnect/timeout/read/list.  Handles are tracked only approximately (the real result decides);
     stale handles are used on purpose."""
@@ -490,6 +514,10 @@ def gen_history(rng, n_ops, free_fn=None, sizes=(0, 1, 3, 5, 8, 10, 16, 24, 40),
     # canary; multi-share requests; connections get lost) with a few direct calls mixed in, or by
     # direct StorageServer calls only
     via_foolscap = rng.random() < foolscap
+    # ... or (direct histories only) mostly through the HTTP server's PATCH handler, which closes the
+    # upload itself as soon as write() answers "finished"; chunks then come in back-to-front /
+    # middle-out / tail-first orders (see Resolver)
+    http = (not via_foolscap) and rng.random() < http_frac
     live_conns, next_conn = [], 1
     for _ in range(n_ops):
         r = rng.random()
@@ -515,7 +543,7 @@ def gen_history(rng, n_ops, free_fn=None, sizes=(0, 1, 3, 5, 8, 10, 16, 24, 40),
             ops.append(op)
             est.append(("alloc", si, shs, size))
         elif r < 0.56:
-            ops.append(["W?", rng.random(), rng.random(), rng.random(), rng.random()])
+            ops.append(["H?" if (http and rng.random() < 0.8) else "W?", rng.random(), rng.random(), rng.random(), rng.random()])
         elif r < 0.66:
             ops.append(["C?", rng.random()])
         elif r < 0.72:
@@ -542,16 +570,44 @@ class Resolver:
     def __init__(self, rng):
         self.rng = rng
         self.content = {}   # wid -> intended bytes
+        self.plans = {}     # wid -> remaining chunks of an HTTP-style upload
 
     def resolve(self, o, runner):
         n = len(runner.handles)
-        if o[0] in ("W?", "C?", "X?", "Y?") and n == 0:
+        if o[0] in ("W?", "H?", "C?", "X?", "Y?") and n == 0:
             return ["S"]
         live = [w for w in range(n) if not runner.handles[w].closed]
         def pick(x):
             if live and x < 0.88:
                 return live[int(x / 0.88 * len(live)) % len(live)]
             return int(x * 1000) % n
+        if o[0] == "H?":
+            # chunked upload in a non-sequential order: the next chunk of a per-upload permutation
+            wid = pick(o[1])
+            size = runner.hkey[wid][2]
+            if wid not in self.content:
+                self.content[wid] = bytes(self.rng.randrange(1, 256) for _ in range(size + 8))
+            plan = self.plans.get(wid)
+            if plan is None:
+                csz = max(1, [1, 2, 3, 5][int(o[2] * 4) % 4])
+                chunks = [(a, min(a + csz, size)) for a in range(0, size, csz)]
+                order = int(o[3] * 4) % 4
+                if order == 0:
+                    chunks.reverse()                                   # back to front
+                elif order == 1:
+                    chunks = chunks[-1:] + chunks[:-1]                 # tail first, then front to back
+                elif order == 2:
+                    mid = len(chunks) // 2                             # middle out
+                    chunks = [c for pair in zip(chunks[mid:], reversed(chunks[:mid] + [None] * (len(chunks) - 2 * mid)))
+                              for c in pair if c is not None] + ([] if len(chunks) % 2 == 0 or mid == 0 else [])
+                    seen = set()
+                    chunks = [c for c in chunks if not (c in seen or seen.add(c))]
+                plan = self.plans[wid] = chunks
+            if plan:
+                a, b = plan.pop(0)
+            else:
+                a, b = 0, min(size, 2)
+            return ["H", wid, a, hx(self.content[wid][a:b])]
         if o[0] == "W?":
             wid = pick(o[1])
             size = runner.hkey[wid][2]
